@@ -103,37 +103,40 @@ def replay (s : S) (k : Nat) : List Act → Except Nat S
 Virtual time advances only while every thread is blocked (the semantics the property is quantified
 over): the body of the phase occupies `[0, d)` (`d = none`: it never returns) and, once it has returned,
 the phase thread stores its outcome and exits within the same instant. The executor polls: while
-`now < deadline`, join for at most `interval`. All quantities are in one integer unit. -/
+`now < deadline`, join for at most `interval` and at most until the deadline. All quantities are in one integer unit. -/
 
 inductive JoinResult
   | own          -- the phase thread's recorded outcome is returned
   | timeout      -- PhaseExecutionOutcome(None); the thread is killed / abandoned
 deriving DecidableEq, Repr
 
+/-- loop left: is there a recorded outcome? (checked BEFORE is_alive) -/
+def joinExit (now : Nat) (d : Option Nat) (tie : Bool) : JoinResult × Nat :=
+  match d with
+  | some dv => if dv < now ∨ (dv = now ∧ tie = true) then (.own, now) else (.timeout, now)
+  | none => (.timeout, now)
+
 /-- `h`: how long the phase thread stays alive after its body returned and its outcome was stored (exception /
     finish handlers, logging, profiler); `tie`: at an instant at which the join times out and the thread event
-    happens simultaneously, who is scheduled first -/
+    happens simultaneously, who is scheduled first. Each join waits for at most `interval` and (after the
+    `fix:` commit) never beyond the deadline. -/
 def joinLoop (fuel : Nat) (now deadline interval : Nat) (d : Option Nat) (h : Nat) (tie : Bool) : JoinResult × Nat :=
   match fuel with
-  | 0 => (.timeout, now)
+  | 0 => joinExit now d tie
   | fuel + 1 =>
     if now < deadline then
-      let wake := now + interval
+      let wake := min (now + interval) deadline
       match d with
       | some dv =>
         -- join() returns early when the thread exits, at dv + h
         if dv + h < wake ∨ (dv + h = wake ∧ tie = true) then (.own, max now (dv + h))
         else joinLoop fuel wake deadline interval d h tie
       | none => joinLoop fuel wake deadline interval d h tie
-    else
-      -- loop left: is there a recorded outcome? (checked BEFORE is_alive)
-      match d with
-      | some dv => if dv < now ∨ (dv = now ∧ tie = true) then (.own, now) else (.timeout, now)
-      | none => (.timeout, now)
+    else joinExit now d tie
 
 /-- `join_or_die` for a phase with `timeout_s` (or the default), started at time 0 -/
 def joinOrDie (timeout interval : Nat) (d : Option Nat) (h : Nat) (tie : Bool) : JoinResult × Nat :=
-  joinLoop (timeout + 2) 0 timeout interval d h tie
+  joinLoop (timeout + 1) 0 timeout interval d h tie
 
 def effectiveTimeoutS (timeoutS : Option Nat) : Nat := timeoutS.getD OpenHTF.Gen.c12_defaultPhaseTimeoutS
 
